@@ -69,12 +69,13 @@ function main() {
       code = fs.readFileSync(j.file, 'utf8');
       const ctx = vm.createContext({ RT: state.RT, console: state.console });
       vm.runInContext(code, ctx, { filename: j.pkg + '.js', timeout: 20000 });
-      if (!state.parser) throw new Error('the generated file did not reach the end of the harness epilogue');
+      if (!state.parser && !j.load_only) throw new Error('the generated file did not reach the end of the harness epilogue');
     } catch (e) {
       emit({ pkg: j.pkg, kind: 'load', err: (e && e.name ? e.name + ': ' : '') + (e && e.message ? e.message : String(e)) });
       continue;
     }
     emit({ pkg: j.pkg, kind: 'load' });
+    if (j.load_only) continue;
     if (j.nstates > 0) {
       try {
         const d = [];
